@@ -528,6 +528,8 @@ def error_swallow(prog, chk):
                     out.append(c)
                 else:
                     work.append(c)
+        if not out:
+            out = list(prog.owners_of(f))  # referenced as a function value (`.any(is_x)`), not called directly
         return sorted(out)
 
     n = 0
@@ -546,6 +548,10 @@ def error_swallow(prog, chk):
             ent = None
             for owner in reviewed_owners(k[0]):
                 e2 = allow.get((owner, k[1], klass(k[2])))
+                if e2 is None:
+                    # a nested fn of the reviewed function (`bbox_raw::passthrough`) hoisted to module level or into a
+                    # closure is still that function's code
+                    e2 = next((v_ for (f_, c_, kl_), v_ in allow.items() if f_.startswith(owner + "::") and c_ == k[1] and kl_ == klass(k[2])), None)
                 # a reviewed (function, callee, class) covers every site of that kind in the function: merging two
                 # copies into a helper, or a helper spliced in at several call sites, changes the number of sites only
                 if e2 is not None:
